@@ -236,6 +236,19 @@ class Truth:
                               representation=s["repr"])
         raise ValueError(k)  # pragma: no cover
 
+    def translated(self, d) -> "Truth":
+        """the same curve moved by d (spline / polyLine / line / project only).  Not re-derived from the spec: the frame
+        of an axis-aligned chord depends on exact zeros that a translation perturbs by rounding"""
+        import copy
+
+        assert self.kind in POINT_KINDS + ("line", "project")
+        d = np.asarray(d, float)
+        t = copy.copy(self)
+        t.X, t.Y = self.X + d, self.Y + d
+        if self.pts is not None:
+            t.pts = [q + d for q in self.pts]
+        return t
+
     def full_poly(self) -> List[np.ndarray]:
         """curve-linear: break points including the extensions beyond X and Y, in X->Y sense"""
         s = self.spec
